@@ -34,7 +34,8 @@ def _stale(target, sources):
 
 
 def build(ctx):
-    ctx.build_driver("drv_c18", ["posix/thread_posix.c", "errno_status.c"], flags=[WRAP])
+    ctx.build_driver("drv_c18", ["posix/thread_posix.c", "errno_status.c", "system.c", "posix/system_posix.c", "allocator.c",
+                                 "status.c"], flags=[WRAP])
     exe = os.path.join(vlib.OCAML_BUILD, "drv_c18")
     srcs = [os.path.join(vlib.COQ, f) for f in ("SemErrnoModel.v", "ThreadModel.v", "ExtractC18.v")]
     srcs.append(os.path.join(vlib.VERIF, "ocaml", "drv_c18.ml"))
@@ -48,7 +49,8 @@ def gen(ctx, seed, tier):
     r = ctx.rng("gen", seed)
     thorough = tier == "thorough"
     M = 1 << 20
-    sizes = [0, 1, 100, 16383, 16384, 16385, 65536, 131072, M, 8 * M - 1, 8 * M, 8 * M + 1, 16 * M, 32 * M, 2**32, 2**40]
+    sizes = [0, 1, 100, 16383, 16384, 16385, 16384 + 64, 16384 + 4096 + 64, 65536, 100000, 131072, 1000000, M,
+             8 * M - 1, 8 * M, 8 * M + 1, 16 * M, 32 * M, 32 * M + 64, 2**32, 2**40]
     creates = [0, 0, 0] + MAPPED + [4, 35, 75, 131, 3, 9]
     cases = []
     for size in sizes + [r.randrange(1, 64 * M) for _ in range(40 if thorough else 10)]:
@@ -57,14 +59,16 @@ def gen(ctx, seed, tier):
             rs = 22 if size < 16384 else 0
             cases.append("S %d %d %d %d" % (size, ri, rs, rc))
     cases += ["J %d" % x for x in [0, 0, 3, 22, 35, 1, 11] + [r.randint(1, 200) for _ in range(10)]]
-    real_sizes = [131072, 262144, M, 2 * M, 8 * M, 8 * M + 4096, 16 * M, 32 * M, 3 * M + 12288]
+    real_sizes = [131072, 262144, M, 2 * M, 8 * M, 8 * M + 4096, 16 * M, 32 * M, 3 * M + 12288,
+                  1000000, 131072 + 64, 5 * M + 64 * 7]   # the last three are not page multiples
     for size in real_sizes:
         cases.append("T %d %d %d %s" % (size, r.randint(1, 6), r.choice([0, 200, 1000]), r.choice("fr")))
     cases.append("T %d %d %d %s" % (262144, 256 if thorough else 64, 300, "r"))
     cases.append("T %d %d %d %s" % (M, 32, 0, "f"))
     for _ in range(40 if thorough else 8):
         cases.append("T %d %d %d %s" % (r.choice(real_sizes), r.randint(1, 16), r.choice([0, 100, 500, 2000]), r.choice("fr")))
-    cases += ["U %d" % s for s in [16384, 20000, 32768, 65536, 100000, 0, 1, 16383]]
+    cases += ["U %d" % s for s in [16384, 16384 + 64, 16384 + 128, 16384 + 64 * 33, 20000, 32768, 65536, 65536 + 64,
+                                   100000, 0, 1, 16383]]
     return cases
 
 
@@ -76,7 +80,8 @@ def corpus(ctx):
 
 
 def targeted(ctx):
-    return ["S 33554432 0 0 0", "T 33554432 2 0 f", "T 16777216 1 0 f", "S 1048576 0 0 11", "S 1048576 0 0 12", "J 3"]
+    return ["S 33554432 0 0 0", "T 33554432 2 0 f", "T 16777216 1 0 f", "S 1048576 0 0 11", "S 1048576 0 0 12", "J 3",
+            "S 1000000 0 0 0", "S 16448 0 0 0", "T 1000000 1 0 f", "U 16448"]
 
 
 def run_impl(ctx, cases):
